@@ -478,3 +478,99 @@ def classify(human, out):
             any(not _same(o[4], o[1]) for o in out["obs"]):
         return "C16-downgrade-label-unchecked"
     return None
+
+
+# ----------------------------------------------------------------------------- canaries (corrupted outputs the decider must reject)
+
+_W = r"[A-Za-z0-9_]"
+_ABS = re.compile(r"^(?:(%s+)@)?(%s+)$" % (_W, _W))
+_REL = re.compile(r"^(?:(%s+)@)?(%s*)([+-])([0-9]+)$" % (_W, _W))
+_RESERVED = ("head", "heads", "base")
+
+
+def _cout(labels, obs):
+    return "(mkOut %s %s)" % (
+        cf.lst("(%s, %s)" % (S(x), cf.lst(S(l) for l in ls)) for x, ls in labels),
+        cf.lst("(mkObs %s)" % " ".join(_coq_outcome(x) for x in o) for o in obs))
+
+
+def _lineage(revs):
+    down = {r["id"]: set(r["down"]) for r in revs}
+
+    def anc(x):
+        out, st = set(), [x]
+        while st:
+            u = st.pop()
+            if u not in out:
+                out.add(u)
+                st.extend(down.get(u, ()))
+        return out
+    ancs = {x: anc(x) for x in down}
+    return lambda a, b: b in ancs.get(a, ()) or a in ancs.get(b, ())
+
+
+def canary(human, rec):
+    """Corruptions of the observed output that violate C16 on identifier strings the decider judges strictly
+    (batches of a recorded finding class are skipped: their observed output may already fail):
+      other-revision   get_revision / the upgrade target of an absolute identifier answers ANOTHER revision of the history
+      error-to-rev     a lookup that raised a documented error now returns a revision
+      outside-branch   label@head answers a revision that does not share lineage with the label
+      undocumented     an entry point raises AssertionError instead of a result / a documented error
+      wrong-distance   name+N / name-N as an upgrade target answers the starting revision itself
+      label-lost       the labelled revision loses its own label in Revision.branch_labels
+      label-stray      a revision outside the lineage of a label carries it"""
+    if human.get("affected") or human.get("dgabs"):
+        return []
+    revs = human["revs"]
+    ids = [r["id"] for r in revs]
+    out = rec["out"]
+    obs, labels = out["obs"], out["labels"]
+    if not ids:
+        return []
+    res = []
+
+    def with_cell(k, op, cell):
+        o2 = [list(o) for o in obs]
+        o2[k][op] = cell
+        return _cout(labels, o2)
+
+    def single_id(cell):
+        return cell.get("ok") is not None and len(cell["ok"]) == 1 and (cell["ok"][0] or "").startswith("id:")
+
+    done = set()
+    lin = _lineage(revs)
+    owner = {l: r["id"] for r in revs for l in r["labels"]}
+    for k, q in enumerate(human["queries"]):
+        ma, mr = _ABS.match(q), _REL.match(q)
+        if ma and ma.group(1) not in _RESERVED:
+            for op, kind in ((1, "other-revision"), (3, "other-revision-up")):
+                if kind not in done and single_id(obs[k][op]) and len(ids) > 1:
+                    cur_id = obs[k][op]["ok"][0][3:]
+                    other = next(x for x in ids if x != cur_id)
+                    res.append(with_cell(k, op, dict(obs[k][op], ok=["id:" + other])))
+                    done.add(kind)
+            if "error-to-rev" not in done and obs[k][1].get("err", "").startswith("Cmd"):
+                res.append(with_cell(k, 1, {"ok": ["id:" + ids[0]], "label": None}))
+                done.add("error-to-rev")
+            if "undocumented" not in done:
+                res.append(with_cell(k, 0, {"err": "XAssertion"}))
+                done.add("undocumented")
+            if "outside-branch" not in done and ma.group(1) and ma.group(2) == "head" and single_id(obs[k][0]):
+                b = ma.group(1) if ma.group(1) in ids else owner.get(ma.group(1))
+                outside = [x for x in ids if b and not lin(b, x)]
+                if outside:
+                    res.append(with_cell(k, 0, dict(obs[k][0], ok=["id:" + outside[0]])))
+                    done.add("outside-branch")
+        elif mr and not mr.group(1) and mr.group(2) in ids and int(mr.group(4)) > 0:
+            if "wrong-distance" not in done and single_id(obs[k][3]) and obs[k][3]["ok"][0][3:] != mr.group(2):
+                res.append(with_cell(k, 3, dict(obs[k][3], ok=["id:" + mr.group(2)])))
+                done.add("wrong-distance")
+    if labels and owner:
+        l, rid = sorted(owner.items())[0]
+        lost = [(x, [y for y in ls if not (x == rid and y == l)]) for x, ls in labels]
+        if lost != labels:
+            res.append(_cout(lost, obs))
+        stray = [x for x in ids if not lin(rid, x)]
+        if stray:
+            res.append(_cout([(x, ls + [l] if x == stray[0] and l not in ls else ls) for x, ls in labels], obs))
+    return [t for t in res if t != rec["cout"]]
